@@ -8,6 +8,7 @@ from harness import build, gen
 from harness import refmodel as rm
 
 RULE = (
+    "A fifth of the cases state the same problem over a hand-rotated orthonormal Hermitian identity-first basis (harness/covar.py). "
     "Inputs: (a) near-physical = physical-by-construction object + Hypothesis-drawn noise of size 1e-4..1e-1, (b) far points "
     "of norm up to 1e2, (c) already-physical points (interior, boundary); types state/povm/gate/mprocess, outcome counts 2..4, "
     "shapes 1q, qutrit (2q in thorough), both mode_proj_order values, eps_proj_physical in {1e-14..1e-6}, both parametrisation "
@@ -93,12 +94,31 @@ def proj_case(draw, tier, classes=("near", "near", "far", "physical", "gain", "t
     elif cls == "gain":
         # a physical object times a common factor 1 + g: un-normalised in the identity direction only
         case["gain"] = draw(st.sampled_from([-1.0, 1.0])) * draw(gen.log_uniform(1e-9, 1e-2))
+    if draw(st.integers(0, 4)) == 0:
+        # the same problem over a hand-rotated (orthonormal, Hermitian, identity-first) basis: harness/covar.py
+        case["rot"] = draw(gen.raw(64))
     return case
+
+
+def _basis_of(case):
+    if case.get("rot") is not None:
+        from harness import covar
+
+        return covar.rotated_env(case["obj"]["shape"], case["rot"])[2]
+    return gen.ref_basis(case["obj"]["shape"])
+
+
+def _c_sys_of(case, shape):
+    if case.get("rot") is not None:
+        from harness import covar
+
+        return covar.rotated_env(shape, case["rot"])[0]
+    return build.c_sys_for(shape)
 
 
 def input_vector(case):
     obj = case["obj"]
-    basis = gen.ref_basis(obj["shape"])
+    basis = _basis_of(case)
     x = gen.stacked_reference(obj, basis).copy()
     if case["class"] == "gain":
         x = x * (1.0 + case["gain"])
@@ -128,7 +148,7 @@ def check_projection(case, ctx):
     x, basis = input_vector(case)
     scale = float(np.linalg.norm(x))
     tol = tol_eps(eps, scale)
-    c_sys = build.c_sys_for(shape)
+    c_sys = _c_sys_of(case, shape)
     q = build.make(c_sys, t, x, m=m, mshape=obj.get("mshape"), on_para_eq_constraint=flag, mode_proj_order=order, eps_proj_physical=eps)
     ctx.label(t, shape, case["class"], order, f"eps:{eps:g}", f"flag:{flag}")
 
@@ -214,6 +234,14 @@ def check_projection(case, ctx):
         ctx.close(np.asarray(f_var(np.array(var_in, copy=True))), np.asarray(var_out), 0.0, "closure_with_var_equals_method")
         o = np.asarray(f_obj(np.array(var_in, copy=True)))
         ctx.close(o, np.asarray(res_eq.to_var() if flag else res.to_var()), 2 * tol, "closure_object_level")
+        # the closure runs the REQUESTED order: with ineq_eq the (linear) equality projection comes last and is met to
+        # rounding, not just to the threshold (the inequality projection is not exact to rounding in the library: not demanded)
+        if o.shape == np.asarray(var_out).shape:
+            z_clo = np.asarray(holder.convert_var_to_stacked_vector(c_sys, o.copy(), on_para_eq_constraint=flag), dtype=float)
+            alg_last = rm.algebraic_tol(d, 1.0 + scale) * 10
+            if order == "ineq_eq":
+                ctx.leq(rm.eq_defect_stacked(t, z_clo, d, m), 0.0, alg_last, "closure_object_level:last_projection_exact",
+                        "order ineq_eq: the equality constraint is projected onto last")
 
     # (6b) the variable-level routine on an integer-valued point given with an integer dtype and as float64: one answer
     vi = np.round(np.asarray(var_in, dtype=float)).astype(np.int64)
@@ -309,7 +337,7 @@ def check_sdp(case, ctx):
     eps = case["eps"]
     x, basis = input_vector(case)
     scale = float(np.linalg.norm(x))
-    c_sys = build.c_sys_for(shape)
+    c_sys = _c_sys_of(case, shape)
     q = build.make(c_sys, t, x, m=m, mshape=obj.get("mshape"), mode_proj_order=case["order"], eps_proj_physical=eps, on_para_eq_constraint=False)
     res, hist = q.calc_proj_physical(is_iteration_history=True)
     if len(hist["x"]) - 1 >= 1000:
